@@ -145,18 +145,49 @@ def run_law(task, closed_form, input_constraints, max_cells=400, outcome_key=Non
         else:
             checks = [(k, law.get(k, z3.RealVal(0)), want.get(k, z3.RealVal(0))) for k in sorted(set(law) | set(want))]
         checks.append(("<total>", sum(law.values(), z3.RealVal(0)), z3.RealVal(1)))
+        point = None
         for k, got, exp in checks:
-            q = nz.neq(lift(got), lift(exp))
-            tq = time.time()
-            r = sc.check(q, *nz.denominators_nonzero(lift(got), lift(exp)))
-            res["solver_s"] += time.time() - tq
-            res["queries"] += 1
+            poly = nz.diff_poly(lift(got), lift(exp))
             res["asserted"] += 1
             res["extra"]["law_identities"] += 1
+            mdl = None
+            if poly.is_zero():
+                # the identity normalises to 0 == 0: z3's answer to `0 != 0` is unsat
+                res["queries"] += 1
+                res["extra"]["identities_trivial_after_normalisation"] = res["extra"].get("identities_trivial_after_normalisation", 0) + 1
+                continue
+            # a non-zero polynomial: first try the cell's own model as witness (exact evaluation), then ask z3
+            if point is None and sc.check() == z3.sat:
+                pm = sc.model()
+                point = {}
+                for n_, v_ in cvars.items():
+                    val = pm.eval(v_, model_completion=True)
+                    if z3.is_rational_value(val):
+                        point[n_] = val.as_fraction()
+                    else:
+                        point = None
+                        break
+            r = None
+            if point is not None and not nz.atoms:
+                try:
+                    dens_ok = all(nz.F[kk].evaluate(point) != 0 for kk in (set(nz.nd(lift(got))[1]) | set(nz.nd(lift(exp))[1])))
+                    if dens_ok and poly.evaluate(point) != 0:
+                        r = z3.sat
+                        mdl = pm
+                except KeyError:
+                    pass
+            if r is None:
+                q = nz.to_z3(poly) != 0
+                tq = time.time()
+                sc.set("timeout", 15000)
+                r = sc.check(q, *nz.denominators_nonzero(lift(got), lift(exp)))
+                res["solver_s"] += time.time() - tq
+                res["queries"] += 1
+                if r == z3.sat:
+                    mdl = sc.model()
             if r == z3.unknown:
                 res["inconclusive"].append("law identity unknown")
             elif r == z3.sat:
-                mdl = sc.model()
                 res["violation_count"] += 1
                 if len(res["violations"]) < 3:
                     res["violations"].append({"label": "law:" + task.get("law_label", "distribution") + (":total" if k == "<total>" else ""),
@@ -187,6 +218,8 @@ def run_law(task, closed_form, input_constraints, max_cells=400, outcome_key=Non
                         res["xval"] += 1
             except core.HarnessError as e:
                 res["harness_errors"].append(repr(e))
+        if res["violation_count"] and task.get("stop_on_violation", True):
+            break
         if len(res["samples"]) < 2 and law:
             k0 = sorted(law)[0]
             res["samples"].append({"cell_atoms": [str(c) for c in cell][:6], "outcome": outcomes.get(k0), "law": str(z3.simplify(lift(law[k0])))[:300]})
